@@ -594,6 +594,7 @@ func (cr *causeRun) runCase(tw *trace.W, st *drv.Stats, id string, p plan) {
 	doc := p.doc
 	tw.Case(id)
 	tw.Init("")
+	tw.Comment("plan class=%s doc=%d bytes %s", p.class, len(doc), p.note)
 	st.Cases++
 	st.Steps++
 	st.Inc("gen:" + p.class)
